@@ -344,9 +344,9 @@ Print Assumptions C16_idempotent_refuted_dup_wrap.
 (* ---- standardize is the Python's -----------------------------------------------------------------
    standardize equals the definition re-translated on every run from writer.standardize_value
    (translators/funcs.py -> Gen/Funcs.v); hval_ops reads `not value`, `value != 0`,
-   `value is None` through the model's v_falsy / v_is_zero / VNone. *)
+   `value is None` through the model's v_falsy / v_is_zero / VNone (and str(value) through vstr). *)
 Require Import Funcs FuncsPinStandardize.
-Theorem C16_standardize_current : forall fzero value unit,
-  standardize fzero value unit = py_standardize_value (hval_ops fzero) value unit.
+Theorem C16_standardize_current : forall fstr fzero value unit,
+  standardize fzero value unit = py_standardize_value (hval_ops fstr fzero) value unit.
 Proof. exact standardize_pin. Qed.
 Print Assumptions C16_standardize_current.
